@@ -190,8 +190,8 @@ func (m *qmc) step(q interface{}, model *[]int, o qop) string {
 
 // CheckQueue is the explicit-state search over exact heap arrays.
 func CheckQueue(c *vrep.Ctx, api *QueueAPI) {
-	m := &qmc{api: api, prios: c.Pick(4, 5), maxSize: c.Pick(5, 7), maxFirst: c.Param("order", "min") == "max", withIdx: c.Param("setindex", "yes") == "yes"}
-	maxDepth := c.Pick(9, 14)
+	m := &qmc{api: api, prios: c.ParamInt("prios", c.Pick(4, 5)), maxSize: c.ParamInt("size", c.Pick(7, 8)), maxFirst: c.Param("order", "min") == "max", withIdx: c.Param("setindex", "yes") == "yes"}
+	maxDepth := c.ParamInt("depth", c.Pick(14, 18))
 	ops := m.ops()
 	c.R.Rule = "explicit-state BFS on the real pq.Queue: a state is the exact heap array of priorities (elements of equal priority are interchangeable), a transition is one real call of Push/Pop/Min/Fix(after a priority change)/Remove with every argument; after every transition: heap order, Len, setIndex-reported position of every element, conservation of the multiset against a sorted-slice model, Pop/Min minimal under the comparator; non-trivial = distinct (state, operation) pairs"
 	c.Bound("priorities", m.prios)
